@@ -124,6 +124,10 @@ def key(kid: str) -> RSA.RsaKey:
     return k
 
 
+_ws = CORPUS / "ws_blobs.txt"
+WS_BLOBS = _ws.read_text().split("\n")[:-1] if _ws.exists() else []
+
+
 def direct_decrypt(kid: str, blob: bytes) -> str:
     """What pycryptodome itself does with the blob (never through the library under test)."""
     try:
@@ -450,6 +454,22 @@ def gen0(tier, rng, shard, nshards):
                 f = rfields(rng, il)
                 f["size"] = 51 + il
                 yield dec_line(direct_encrypt(right, own_encode(f), rng))
+        # transport white space / padding around and inside the edge of a blob: a valid blob wrapped in CR LF, blanks, NULs, '=' is
+        # NOT a blob of k bytes (ValueError), and valid blobs whose own first / last two bytes are such characters
+        # (corpus/C06/ws_blobs.txt, 1 in 65536 of all ciphertexts; tools/mk_c06_ws_corpus.py) decrypt like any other
+        f = rfields(rng, 5)
+        f["size"] = 56
+        vblob = direct_encrypt(right, own_encode(f), rng)
+        for ws in (b"\r\n", b"\n", b"\r", b" ", b"\t", b"\x00", b"=", b"  ", b"\r\n\r\n"):
+            for blob in (vblob + ws, ws + vblob, ws + vblob + ws, vblob[:-len(ws)] + ws, ws + vblob[len(ws):]):
+                if mine():
+                    yield dec_line(blob)
+        for ln in WS_BLOBS:
+            kid, _how, _pat, hexblob = ln.split()
+            if kid == right and mine():
+                yield dec_line(bytes.fromhex(hexblob))
+            if kid == wrong and ksize[wrong] == kb and mine():
+                yield dec_line(bytes.fromhex(hexblob))                          # under the other key of the pair
         # wrong key, same modulus size
         if ksize[wrong] == kb:
             for _ in range(vol(24, 300)):
